@@ -9,4 +9,6 @@ CONSTANTS
   BugRetryFresh = FALSE
   BugNoRetire = FALSE
   BugLateLeak = FALSE
+  RareN = 6
+  VeryRareN = 30
 CHECK_DEADLOCK FALSE
